@@ -12,7 +12,7 @@ from mc.util import call, raised
 ID = "C15"
 LEVEL = "model_checking"
 RULE = (
-    "Exhaustive product: data set in all k-subsets (k = 1..5; thorough 1..6) of the 9 integer points {0,1,3}x{0,2,7} x queries = all 209 nodes "
+    "Data coordinates in float and in integer dtypes (both, easting only with non-integer northings, northing only). Exhaustive product: data set in all k-subsets (k = 1..5; thorough 1..6) of the 9 integer points {0,1,3}x{0,2,7} x queries = all 209 nodes "
     "of the half-unit lattice over and around them (2-D, 1-D and 0-d forms) x k_neighbours = 1..k x reduction {mean, median, min, max} x data "
     "= distinct powers of two (a reduced value identifies its neighbour set); median_distance for k_nearest = 1..k-1 with and without an "
     "anisotropic projection; distance_mask for maxdist = every exactly representable query-data distance (closed ball) and every "
@@ -42,16 +42,23 @@ def cases(tier, seed):
                     if kn == 1 and red != "mean":
                         continue
                     yield dict(kind="knn", sub=list(sub), k=kn, red=red)
+                    if red == "mean":
+                        for rep in ("int_e", "int_n", "int"):
+                            yield dict(kind="knn", sub=list(sub), k=kn, red=red, rep=rep)
             for kn in range(1, k):
                 for proj in (False, True):
                     for shape in ("1d", "2d"):
                         if shape == "2d" and k % 2:
                             continue
                         yield dict(kind="median_distance", sub=list(sub), k=kn, proj=proj, shape=shape)
+                        if shape == "1d":
+                            yield dict(kind="median_distance", sub=list(sub), k=kn, proj=proj, shape=shape, rep=("int_e", "int_n", "int")[(kn + len(sub)) % 3])
             if k <= (3 if tier == "quick" else 4):
                 for proj in (False, True):
                     for form in ("array2d", "array1d", "grid1", "grid2"):
                         yield dict(kind="mask", sub=list(sub), proj=proj, form=form)
+                        if form in ("array1d", "grid2"):
+                            yield dict(kind="mask", sub=list(sub), proj=proj, form=form, rep=("int_e", "int_n", "int")[(sum(sub) + proj) % 3])
     yield dict(kind="mask_invalid")
 
 
@@ -59,7 +66,7 @@ def _d2x4(q, p, aniso=False):
     """4 x squared distance as an exact integer (half-unit queries, integer data)."""
     sx, sy = (2, 3) if aniso else (1, 1)
     dx = int(round(2 * sx * (q[0] - p[0])))
-    dy = int(round(2 * sy * (q[1] - p[1])))
+    dy = int(round(2 * sy * (q[1] - p[1])))   # data may sit on half units too (exact in these units)
     return dx * dx + dy * dy
 
 
@@ -95,6 +102,18 @@ def run(case, rec):
     npts = len(pts)
     e = np.array([p[0] for p in pts], dtype=float)
     n = np.array([p[1] for p in pts], dtype=float)
+    # representation of the (integer-valued) data coordinates: float, integer dtype for the easting only (mixed dtypes), for both,
+    # or for the northing only (added after seed C15-2: a k-d tree helper that allocated its point matrix with the dtype of the
+    # first coordinate array); rotates with the case so that every family sees every representation
+    rep = case.get("rep", "float")
+    if rep == "int_e":
+        e = e.astype(np.int64)
+        n = n + 0.5   # non-integer northings next to an integer-dtype easting: a truncating cast changes them
+        pts = [(p[0], p[1] + 0.5) for p in pts]
+    elif rep == "int_n":
+        n = n.astype(np.int32)
+    elif rep == "int":
+        e, n = e.astype(np.int64), n.astype(np.int64)
     rec.trivial = npts < 2
     if kind == "knn":
         k, red = case["k"], case["red"]
